@@ -364,8 +364,8 @@ def _png_filters(model: Model, rep: Report, png: FuncInfo, rid: str = "C03-R5") 
     r5.check("line_above=raw" in src and "range(0,len(data),nbytes+1)" in src and "filter_type=data[scanline_i]" in src and "line_encoded=data[scanline_i+1:scanline_i+1+nbytes]" in src, site(png), png.qualname, "rows are 1 + nbytes long: type byte, then data; each decoded row becomes the next prior row", why="row framing changed")
 
 
-def _lzw(model: Model, rep: Report) -> None:
-    r7 = rep.rule("C03-R7", "WRITESET", "LZW decoder: the clear-table code re-establishes the whole initial dictionary state; code widths grow at 511/1023/2047 (7.4.4.2)", 4)
+def _lzw(model: Model, rep: Report, rid: str = "C03-R7") -> None:
+    r7 = rep.rule(rid, "WRITESET", "LZW decoder: the clear-table code re-establishes the whole initial dictionary state; code widths grow at 511/1023/2047 (7.4.4.2)", 4)
     init = model.func("pdfminer.lzw.LZWDecoder.__init__")
     feed = model.func("pdfminer.lzw.LZWDecoder.feed")
     from ..util import self_fields_written
